@@ -105,33 +105,61 @@ class Worker:
         self.kill()
 
 
-def run_cases(modname, cases, nworkers=None, hard_timeout=30, env_extra=None,
-              basilisp=True, hashseed="0", progress=None):
-    """Evaluate every case on the implementation; returns results in case order."""
-    cases = list(cases)
-    if nworkers is None:
-        nworkers = int(os.environ.get("VERIF_WORKERS", "3"))
-    nworkers = max(1, min(nworkers, len(cases)))
-    results = [None] * len(cases)
-    lock = threading.Lock()
-    nxt = [0]
+class Pool:
+    """Persistent set of workers; `map` evaluates cases in order of submission."""
 
-    def loop():
-        w = Worker(modname, env_extra=env_extra, basilisp=basilisp, hashseed=hashseed)
-        try:
+    def __init__(self, modname, nworkers=None, hard_timeout=30, env_extra=None,
+                 basilisp=True, hashseed="0"):
+        if nworkers is None:
+            nworkers = int(os.environ.get("VERIF_WORKERS", "3"))
+        self.args = dict(modname=modname, env_extra=env_extra, basilisp=basilisp, hashseed=hashseed)
+        self.nworkers = max(1, nworkers)
+        self.hard_timeout = hard_timeout
+        self.workers = []
+
+    def _ensure(self, n):
+        while len(self.workers) < n:
+            a = self.args
+            self.workers.append(Worker(a["modname"], env_extra=a["env_extra"],
+                                       basilisp=a["basilisp"], hashseed=a["hashseed"]))
+
+    def map(self, cases):
+        cases = list(cases)
+        if not cases:
+            return []
+        n = max(1, min(self.nworkers, (len(cases) + 19) // 20))
+        self._ensure(n)
+        results = [None] * len(cases)
+        lock = threading.Lock()
+        nxt = [0]
+
+        def loop(w):
             while True:
                 with lock:
                     i = nxt[0]
                     if i >= len(cases):
                         return
                     nxt[0] += 1
-                results[i] = w.call(cases[i], hard_timeout)
-        finally:
-            w.close()
+                results[i] = w.call(cases[i], self.hard_timeout)
 
-    threads = [threading.Thread(target=loop, daemon=True) for _ in range(nworkers)]
-    for t in threads:
-        t.start()
-    for t in threads:
-        t.join()
-    return results
+        threads = [threading.Thread(target=loop, args=(w,), daemon=True) for w in self.workers[:n]]
+        for t in threads:
+            t.start()
+        for t in threads:
+            t.join()
+        return results
+
+    def close(self):
+        for w in self.workers:
+            w.close()
+        self.workers = []
+
+
+def run_cases(modname, cases, nworkers=None, hard_timeout=30, env_extra=None,
+              basilisp=True, hashseed="0", progress=None):
+    """One-shot convenience wrapper around Pool."""
+    p = Pool(modname, nworkers, hard_timeout, env_extra, basilisp, hashseed)
+    try:
+        return p.map(cases)
+    finally:
+        p.close()
